@@ -80,7 +80,7 @@ def _copies_of(facts, x):
     out = [x]
     for f in facts:
         for t in _subterms(f):
-            if isinstance(t, tuple) and len(t) == 5 and t[0] == "comp" and t[1] in ("list", "set") and t[2] == x and isinstance(t[3], tuple) and t[3][:2] == ("elem", x) and t not in out:
+            if isinstance(t, tuple) and len(t) == 5 and t[0] == "comp" and t[1] in ("list", "set", "gen") and t[2] == x and isinstance(t[3], tuple) and t[3][:2] == ("elem", x) and t not in out:
                 out.append(t)
     return out
 
